@@ -16,6 +16,7 @@ from harness.gen import SchemaGen, ValueGen, families
 
 ID = "C04"
 TIE_MODULES = ["StathamModel.Tie"]
+PROOF_MODULES = ["StathamModel.Props.C04Tree"]
 ASSUMPTIONS = ["the JSON name -> Python name mapping used by the oracle is the library's own (_parse_attribute_name; C12 checks it)"]
 N_SCHEMAS = {"quick": 1200, "thorough": 30000}
 TWO53 = 2 ** 53
